@@ -477,7 +477,7 @@ impl Check for C13 {
         co
     }
 
-    fn shrink(&self, case: &Value) -> Vec<Value> {
+    fn shrink(&self, case: &Value, _hint: Option<&Value>) -> Vec<Value> {
         let c: Case = match serde_json::from_value(case.clone()) {
             Ok(c) => c,
             Err(_) => return vec![],
